@@ -85,6 +85,7 @@ fn pparams(rng: &mut Rng) -> PP {
             2 => vec![1],
             _ => vec![0, 1, 2],
         },
+        cost_salt: rng.range(0, 1000),
     }
 }
 
